@@ -233,6 +233,19 @@ def run_case(case, ctx):
             cell = np.round(cell)            # integer-valued cell, handed over with an integer dtype
             int_cell = 1 + case["s"] % 2
         pos = rng.uniform(0, 1, (n, 3)).dot(cell)
+    # degenerate placements: two atoms at the very same position, or at the same point of two opposite cell faces - their
+    # minimum-image distance is exactly 0, which is below every cutoff
+    if len(pos) >= 2 and case["s"] % 6 == 0:
+        i, j = [int(x) for x in rng.choice(len(pos), 2, replace=False)]
+        if cell is not None and rng.integers(2):
+            k = int(rng.integers(3))
+            f = G.frac(cell, pos[i:i + 1])[0]
+            f[k] = 0.0
+            pos[i] = f.dot(cell)
+            pos[j] = pos[i] + cell[k]
+        else:
+            pos[j] = pos[i]
+        st.count("structures_with_two_atoms_at_distance_zero")
     r = check(elements, pos, cell, ctx, st, radii, nonmetals, "random %s structure%s" % (kind or "cell-free", " (integer cell)" if int_cell else ""), metamorphic_rng=rng, int_cell=int_cell)
     st.seen("random_cell_class", str(kind))
     if r is not None:
@@ -257,6 +270,8 @@ def requirements(stats, tier):
         need.append("too few image-only bonds in random structures")
     if stats.get("detections_after_inplace_cell_edit_with_other_bonding") < (10 if tier == "quick" else 1000):
         need.append("detections on an object whose cell was edited in place, with another expected bonding than before: %d" % stats.get("detections_after_inplace_cell_edit_with_other_bonding"))
+    if stats.get("structures_with_two_atoms_at_distance_zero") < 10:
+        need.append("structures with two atoms at distance exactly zero: %d" % stats.get("structures_with_two_atoms_at_distance_zero"))
     if stats.get("integer_cells") < 10:
         need.append("cells given with integer entries: %d" % stats.get("integer_cells"))
     if stats.nseen("random_cell_class") < 3:
